@@ -586,7 +586,17 @@ def _sorted(eng, it, key=None, reverse=False):
     if s.tail is not None:
         raise Unsupported("sorted of symbolic-length sequence")
     ks = [eng.call(key, [x], {}) if key is not None else x for x in s.items]
-    if not all(isinstance(k, (str, int)) and not isinstance(k, bool) for k in ks) and not all(isinstance(k, str) for k in ks):
+
+    def concrete(k):
+        # tuples of concrete integers / strings compare lexicographically, as in Python
+        if isinstance(k, STup) and k.tail is None and all(isinstance(x, (str, int)) and not isinstance(x, bool) for x in k.items):
+            return tuple(k.items)
+        return k
+    ks = [concrete(k) for k in ks]
+    if ks and all(isinstance(k, tuple) for k in ks):
+        if len({tuple(type(x) for x in k) for k in ks}) != 1:
+            raise Unsupported("sorted with keys of different shapes")
+    elif not all(isinstance(k, (str, int)) and not isinstance(k, bool) for k in ks) and not all(isinstance(k, str) for k in ks):
         raise Unsupported("sorted with symbolic keys")
     order = sorted(range(len(ks)), key=lambda i: ks[i], reverse=bool(reverse))
     return STup([s.items[i] for i in order], None, True)
